@@ -149,14 +149,16 @@ _kr = z3.Int('k!rv')
 
 
 def subscript(ex, st, base, sl_, node):
-    if _iface(ex) and _is_rev(sl_):
+    if (_iface(ex) or _cache(ex)) and _is_rev(sl_):
         b = st.deref(base)
-        if isinstance(b, VSeq) and b.tag in ('core', 'optvec', 'wvec'):
+        if isinstance(b, VSeq) and b.tag in (('core', 'optvec', 'wvec') if _iface(ex) else ('dictkeys', 'dictvals')):
             used('list[::-1] -> NEW list with the elements in reverse order (the original list is untouched)')
             arr = ex.fresh('rev', b.arr.sort())
             st.assume(z3.ForAll([_kr], arr[_kr] == b.arr[b.n - 1 - _kr], patterns=[arr[_kr]]))
             out = b.copy()
             out.arr = arr
+            if hasattr(b, 'w'):
+                out.w = b.w
             if hasattr(b, 'lens'):               # mx_act.WSeq: the lengths of the weight vectors travel with them
                 lens = ex.fresh('revlen', b.lens.sort())
                 st.assume(z3.ForAll([_kr], lens[_kr] == b.lens[b.n - 1 - _kr], patterns=[lens[_kr]]))
@@ -227,3 +229,530 @@ def m_norm_cvec(ex, st, args, kwargs, node):
             used('np.linalg.norm(v) of a 1-D float array -> cnorm(column(v)), the Euclidean norm (>= 0)   [A-REAL]')
             return cnorm(v.t)
     return _orig_norm(ex, st, args, kwargs, node)
+
+
+# ----------------------------------------------------------------------------------------------
+# act_one.get_and_grad   (gate: ex.core_grad, together with ex.core_iface)
+#
+#   cslput(G, k, a)   = G with the mode slice G[:, k, :] replaced by the matrix a  (what `Q[:, k, :] = a` does to the array Q)
+# `for Q, .. in zip(grad, ..): Q[:, k, :] = a` writes INTO the array that lives in the list: elements handed out by the iteration over
+# a list of cores remember where they came from (`.origin`), and the slice assignment is written through to that list (the contract
+# of the loop must name the list in its `havoc` option: the engine does not see this mutation).
+
+cslput = z3.Function('cslput', T.Core, I, T.Mat, T.Core)
+_G = z3.Const('G!c', T.Core)
+T.GROUPS['cslput'] = [
+    T.A([_G, _k, _a], z3.And(T.d0(cslput(_G, _k, _a)) == T.d0(_G), T.d1(cslput(_G, _k, _a)) == T.d1(_G), T.d2(cslput(_G, _k, _a)) == T.d2(_G)),
+        [cslput(_G, _k, _a)]),
+    T.A([_G, _k, _a, _j], z3.Implies(z3.And(0 <= _k, _k < T.d1(_G), T.rows(_a) == T.d0(_G), T.cols(_a) == T.d2(_G)),
+                                     T.sl(cslput(_G, _k, _a), _j) == z3.If(_j == _k, _a, T.sl(_G, _j))), [T.sl(cslput(_G, _k, _a), _j)]),
+]
+
+
+def _grad(ex):
+    return getattr(ex, 'core_grad', False)
+
+
+_orig_iteration = M.iteration
+
+
+def iteration(ex, st, it, node):
+    if _grad(ex) and isinstance(it, ast.Name):
+        v = st.vars.get(it.id)
+        if isinstance(v, VRef) and isinstance(st.heap.get(v.oid), VSeq) and st.heap[v.oid].tag == 'core':
+            oid = v.oid
+
+            def bind(ex_, st_, j, oid=oid):
+                g = st_.heap[oid].get(j)            # the array that is in the list NOW (the list may be written to by the loop body)
+                g.origin = (oid, j)
+                return g
+            return M.Iteration(n=st.heap[oid].n, bind=bind)
+    return _orig_iteration(ex, st, it, node)
+
+
+M.iteration = iteration
+_orig_setitem = M.arr_setitem
+
+
+def _full(e):
+    return isinstance(e, ast.Slice) and e.lower is None and e.upper is None and e.step is None
+
+
+def arr_setitem(ex, st, b, sl_, v, node):
+    if _grad(ex) and isinstance(b, VArr) and b.ndim == 3 and b.tag == 'core' and b.t is not None and isinstance(sl_, ast.Tuple) \
+            and len(sl_.elts) == 3 and _full(sl_.elts[0]) and _full(sl_.elts[2]) and not isinstance(sl_.elts[1], ast.Slice):
+        a = st.deref(v)
+        if not (isinstance(a, VArr) and a.ndim == 2 and a.tag == 'mat' and a.t is not None):
+            raise Unsupported('slice assignment G[:, k, :] = <value without a matrix denotation>')
+        k = M.norm_index(ex, st, ex.need_num(st, ex.ev(sl_.elts[1], st), node), b.shape[1], node, 'mode-index')
+        used('G[:, k, :] = a (a matrix of shape (r1, r2)) -> cslput(G, k, a), written through to the list the array lives in')
+        ex.oblige(st, 'call-pre', 'slice-assignment-shapes-agree', z3.And(Z(a.shape[0]) == Z(b.shape[0]), Z(a.shape[1]) == Z(b.shape[2])), node)
+        new = M.mk_core(cslput(b.t, Z(k), a.t))
+        origin = getattr(b, 'origin', None)
+        if getattr(b, 'shared', False):
+            if origin is None or not isinstance(st.heap.get(origin[0]), VSeq):
+                raise Unsupported('slice assignment into an array that lives in a container of unknown origin')
+            seq = st.heap[origin[0]]
+            upd = ex.fresh('updsl', seq.arr.sort())
+            st.assume(upd == z3.Store(seq.arr, origin[1], new.t))
+            seq.arr = upd
+            new.shared, new.origin = True, origin
+        return new
+    return _orig_setitem(ex, st, b, sl_, v, node)
+
+
+M.arr_setitem = arr_setitem
+_orig_outer = M.FUNCS.get('np.outer')
+
+
+@model('np.outer')
+def m_outer_cvec(ex, st, args, kwargs, node):
+    if _grad(ex) and len(args) == 2 and not kwargs:
+        u, v = [_unopt(ex, st, st.deref(a), node) for a in args]
+        if is_cvec(u) and is_cvec(v):
+            used('np.outer(u, v) of two 1-D arrays -> the matrix column(u) @ column(v)^T')
+            return VArr((u.shape[0], v.shape[0]), T.mm(u.t, T.tr(v.t)), 'mat')
+    if _orig_outer is None:
+        raise Unsupported('np.outer pattern')
+    return _orig_outer(ex, st, args, kwargs, node)
+
+
+_orig_method = M.method
+
+
+def method(ex, st, recv, name, args, kwargs, node):
+    if _iface(ex) and name == 'item' and not args and not kwargs:
+        r = _unopt(ex, st, st.deref(recv), node)
+        if is_cvec(r):
+            used('v.item() of a 1-D array of length 1 -> its single entry (requires size 1)')
+            ex.oblige(st, 'call-pre', 'item-size-1', Z(r.shape[0]) == 1, node)
+            return T.ent(r.t, 0, 0)
+    return _orig_method(ex, st, recv, name, args, kwargs, node)
+
+
+M.method = method
+
+
+# ----------------------------------------------------------------------------------------------
+# svd.svd_matrix / transformation.full_matrix: the index-interleaving permutations   (gate: ex.core_perm)
+#
+# Dense arrays of symbolic dimension are models.VNd values (only the shape sequence is interpreted).  What the two functions do to
+# such an array is recorded as provenance `.src` (a Python tuple) so that the contract can state WHICH array reaches svd / is returned:
+#     ('reshape', order, base)        X.reshape(shape, order=..)   (the size compatibility of a reshape is NOT modelled)
+#     ('transpose', base, prm)        X.transpose(prm): axis a of the result is axis prm[a] of X; prm must be a permutation of the axes
+# Integer index arrays built on the way: 'icol' (n, 1) column of an integer vector, 'icols2' (n, 2) two columns side by side,
+# 'irows2' (2, c): the Fortran-order reshape of a vector of length 2c to two rows (M[a, k] = v[a + 2k]).
+
+def _perm(ex):
+    return getattr(ex, 'core_perm', False)
+
+
+_kp, _jp = z3.Ints('k!p j!p')
+
+
+def _ivec(n, arr):
+    return VArr((n,), arr, 'ivec', 'i')
+
+
+def _is_ivec(v):
+    return isinstance(v, VArr) and v.ndim == 1 and v.tag == 'ivec' and v.t is not None and not callable(v.t)
+
+
+_orig_arange = M.FUNCS['np.arange']
+
+
+@model('np.arange')
+def m_arange2(ex, st, args, kwargs, node):
+    if _perm(ex) and len(args) == 2 and not kwargs:
+        lo, hi = [ex.need_num(st, a, node) for a in args]
+        if is_intsort(lo) and is_intsort(hi):
+            used('np.arange(lo, hi) for integers lo <= hi -> the integer vector lo, lo+1, .., hi-1')
+            ex.oblige(st, 'call-pre', 'arange-bounds-ordered', Z(lo) <= Z(hi), node)
+            arr = ex.fresh('arange', IA)
+            st.assume(z3.ForAll([_kp], arr[_kp] == Z(lo) + _kp, patterns=[arr[_kp]]))
+            return _ivec(z3.simplify(Z(hi) - Z(lo)), arr)
+    return _orig_arange(ex, st, args, kwargs, node)
+
+
+_orig_list_repeat2 = M.list_repeat
+
+
+def list_repeat2(ex, st, lst, n, node):
+    if _perm(ex) and len(lst.items) == 2 and all(is_intsort(x) for x in lst.items):
+        used('[a, b] * n -> the list a, b, a, b, .. of length 2n (requires n >= 0)')
+        ex.oblige(st, 'call-pre', 'list-repeat-count-non-negative', Z(n) >= 0, node)
+        arr = ex.fresh('rep2', IA)
+        st.assume(z3.ForAll([_kp], arr[_kp] == z3.If(_kp % 2 == 0, Z(lst.items[0]), Z(lst.items[1])), patterns=[arr[_kp]]))
+        return st.alloc(VSeq(arr, 2 * Z(n), lambda t: t, tag='int'))
+    return _orig_list_repeat2(ex, st, lst, n, node)
+
+
+M.list_repeat = list_repeat2
+_orig_hstack = M.FUNCS['np.hstack']
+
+
+@model('np.hstack')
+def m_hstack_cols(ex, st, args, kwargs, node):
+    parts = st.deref(args[0]) if args else None
+    if _perm(ex) and isinstance(parts, (VTuple, VList)) and len(parts.items) == 2:
+        a, b = [st.deref(x) for x in parts.items]
+        if isinstance(a, VArr) and isinstance(b, VArr) and a.tag == 'icol' and b.tag == 'icol':
+            used('np.hstack((u, v)) of two integer columns (n, 1) -> the (n, 2) matrix with rows (u[k], v[k]); requires equal lengths')
+            ex.oblige(st, 'call-pre', 'hstack-rows-agree', Z(a.shape[0]) == Z(b.shape[0]), node)
+            return VArr((a.shape[0], 2), (a.t, b.t), 'icols2', 'i')
+    return _orig_hstack(ex, st, args, kwargs, node)
+
+
+def _order(kwargs):
+    o = kwargs.get('order', VStr('C'))
+    return o.concrete() if isinstance(o, VStr) else None
+
+
+def _nd_shape(st, v):
+    """(shape sequence object, z3 array, length) of a dense array value: VNd, or a VArr of concrete ndim."""
+    if isinstance(v, M.VNd):
+        s = st.deref(v.shape_ref)
+        if isinstance(s, VSeq) and s.tag == 'int':
+            return s.arr, s.n
+    return None
+
+
+_orig_method_p = M.method
+
+
+def method_perm(ex, st, recv, name, args, kwargs, node):
+    if _perm(ex):
+        r = st.deref(recv)
+        items = list(args)
+        if len(args) == 1 and isinstance(st.deref(args[0]), (VTuple, VList)):
+            items = list(st.deref(args[0]).items)
+        lits = [x for x in items] if all(isinstance(x, int) and not isinstance(x, bool) for x in items) else None
+        if name == 'reshape' and _is_ivec(r) and set(kwargs) <= {'order'} and lits is not None:
+            o = _order(kwargs)
+            if lits == [-1, 1]:
+                used('v.reshape(-1, 1) of an integer vector -> the (n, 1) column with the same entries')
+                return VArr((r.shape[0], 1), r.t, 'icol', 'i')
+            if lits == [2, -1] and o == 'F':
+                used("v.reshape(2, -1, order='F') of an integer vector of even length 2c -> the (2, c) matrix M[a, k] = v[a + 2k]")
+                c = ex.fresh_int('half')
+                ex.oblige(st, 'call-pre', 'reshape-preserves-size (even length)', Z(r.shape[0]) % 2 == 0, node)
+                st.assume(2 * c == Z(r.shape[0]))
+                return VArr((2, c), r.t, 'irows2', 'i')
+        if name == 'reshape' and isinstance(r, VArr) and r.tag == 'icols2' and lits == [-1] and not kwargs:
+            used('(n, 2) integer matrix .reshape(-1) (C order) -> the vector of length 2n with entries row by row: u[0], v[0], u[1], v[1], ..')
+            u, v = r.t
+            arr = ex.fresh('flat', IA)
+            st.assume(z3.ForAll([_kp], arr[_kp] == z3.If(_kp % 2 == 0, u[_kp / 2], v[_kp / 2]), patterns=[arr[_kp]]))
+            return _ivec(2 * Z(r.shape[0]), arr)
+        if name == 'reshape' and isinstance(r, VArr) and r.tag == 'irows2' and lits == [-1] and not kwargs:
+            used('(2, c) integer matrix .reshape(-1) (C order) -> the vector of length 2c: first row, then second row')
+            c = Z(r.shape[1])
+            arr = ex.fresh('flat', IA)
+            st.assume(z3.ForAll([_kp], arr[_kp] == z3.If(_kp < c, r.t[2 * _kp], r.t[2 * (_kp - c) + 1]), patterns=[arr[_kp]]))
+            return _ivec(2 * c, arr)
+        dense = isinstance(r, M.VNd) or (isinstance(r, VArr) and r.ndim == 2 and r.tag in (None, 'mat'))
+        if name == 'reshape' and dense and set(kwargs) <= {'order'} and _order(kwargs) in ('F', 'C'):
+            shp = st.deref(args[0]) if len(args) == 1 else None
+            if isinstance(shp, VSeq) and shp.tag == 'int':
+                used('X.reshape(list_of_sizes, order) of a dense array -> dense array with that shape (the size compatibility is NOT modelled)')
+                out = M.VNd(st.alloc(shp.copy()))
+                out.src = ('reshape', _order(kwargs), r)
+                return out
+            if isinstance(r, M.VNd) and len(items) == 2 and all(is_num(x) and is_intsort(x) and not (isinstance(x, int) and x < 0) for x in items):
+                used('X.reshape(a, b, order) of a dense array -> a x b matrix (the size compatibility is NOT modelled)')
+                out = VArr((items[0], items[1]), None, None)
+                out.src = ('reshape', _order(kwargs), r)
+                return out
+        if name == 'transpose' and isinstance(r, M.VNd) and len(args) == 1 and not kwargs and _is_ivec(st.deref(args[0])):
+            prm = st.deref(args[0])
+            sh = _nd_shape(st, r)
+            if sh is None:
+                raise Unsupported('transpose of a dense array of unknown shape')
+            sarr, n = sh
+            used('X.transpose(prm) -> axis a of the result is axis prm[a] of X; prm must be a permutation of range(X.ndim) (else ValueError)')
+            ex.oblige(st, 'call-pre', 'transpose-one-axis-number-per-axis', Z(prm.shape[0]) == n, node)
+            ex.oblige(st, 'call-pre', 'transpose-axis-numbers-in-range',
+                      z3.ForAll([_kp], z3.Implies(z3.And(0 <= _kp, _kp < n), z3.And(0 <= prm.t[_kp], prm.t[_kp] < n)), patterns=[prm.t[_kp]]), node)
+            ex.oblige(st, 'call-pre', 'transpose-no-axis-repeated',
+                      z3.ForAll([_kp, _jp], z3.Implies(z3.And(0 <= _kp, _kp < _jp, _jp < n), prm.t[_kp] != prm.t[_jp]),
+                                patterns=[z3.MultiPattern(prm.t[_kp], prm.t[_jp])]), node)
+            arr = ex.fresh('tshape', IA)
+            st.assume(z3.ForAll([_kp], arr[_kp] == sarr[prm.t[_kp]], patterns=[arr[_kp]]))
+            out = M.VNd(st.alloc(VSeq(arr, n, lambda t: t, tag='int')))
+            out.src = ('transpose', r, prm)
+            return out
+    return _orig_method_p(ex, st, recv, name, args, kwargs, node)
+
+
+M.method = method_perm
+
+
+# ----------------------------------------------------------------------------------------------
+# core.core_dot / core_dot_inv / core_dot_maxvol / core_qr_rand   (gate: ex.core_ops)
+#
+#   nonsing(A)   A is a square non-singular matrix (the domain of np.linalg.solve); only axiom: nonsing(A^T) = nonsing(A)
+# Selections `A[:, ind]` / `A[ind, :]` with an integer vector record their provenance `.src = ('cols' | 'rows', A, ind)`.
+# Draws are logged in st.ghost['core_draws'] as (generator, shape, matrix term).
+
+nonsing = z3.Function('nonsing', T.Mat, z3.BoolSort())
+T.GROUPS['trtr'] = [T.A([_a], T.tr(T.tr(_a)) == _a, [T.tr(T.tr(_a))]),
+                    T.A([_a], nonsing(T.tr(_a)) == nonsing(_a), [nonsing(T.tr(_a))])]
+
+
+def _ops(ex):
+    return getattr(ex, 'core_ops', False)
+
+
+def _wrap_array(name):
+    orig = M.FUNCS[name]
+
+    def m_array_1x1(ex, st, args, kwargs, node):
+        if _ops(ex) and len(args) == 1 and not kwargs:
+            v = st.deref(args[0])
+            if isinstance(v, VList) and len(v.items) == 1:
+                w = st.deref(v.items[0])
+                if isinstance(w, VList) and len(w.items) == 1 and is_num(w.items[0]):
+                    used('np.array([[c]]) for a number c -> the 1 x 1 matrix sc(c)')
+                    return VArr((1, 1), T.sc(to_real(w.items[0])), 'mat')
+        return orig(ex, st, args, kwargs, node)
+    M.FUNCS[name] = m_array_1x1
+
+
+for _nm in ('np.array', 'np.asanyarray', 'np.asarray'):      # later extension modules chain through any of the three names
+    _wrap_array(_nm)
+
+
+@model('np.linalg.solve')
+def m_solve(ex, st, args, kwargs, node):
+    if not _ops(ex) or len(args) != 2 or kwargs:
+        raise Unsupported('np.linalg.solve pattern')
+    a, b = st.deref(args[0]), st.deref(args[1])
+    if not (isinstance(a, VArr) and isinstance(b, VArr) and a.ndim == 2 and b.ndim == 2 and a.tag == 'mat' and b.tag == 'mat'
+            and a.t is not None and b.t is not None):
+        raise Unsupported('np.linalg.solve of values without a matrix denotation')
+    used('np.linalg.solve(A, B) -> X with A @ X = B; requires A square and non-singular (else LinAlgError) and rows(B) = rows(A)   [A-LAPACK]')
+    ex.oblige(st, 'call-pre', 'solve-square-system', Z(a.shape[0]) == Z(a.shape[1]), node)
+    ex.oblige(st, 'call-pre', 'solve-right-hand-side-rows-agree', Z(b.shape[0]) == Z(a.shape[0]), node)
+    ex.oblige(st, 'call-pre', 'solve-matrix-non-singular', nonsing(a.t), node)
+    x = ex.fresh('Xsolve', T.Mat)
+    st.assume(T.rows(x) == Z(a.shape[1]), T.cols(x) == Z(b.shape[1]), T.mm(a.t, x) == b.t)
+    st.ghost.setdefault('solves', []).append((a.t, b.t, x))
+    return M.mk_mat(x)
+
+
+_orig_method_o = M.method
+
+
+def method_ops(ex, st, recv, name, args, kwargs, node):
+    if _ops(ex):
+        r = st.deref(recv)
+        if type(r).__name__ == 'VGen' and name == 'normal' and not args and set(kwargs) == {'size'}:
+            shp = M.shape_arg(ex, st, kwargs['size'], node)
+            if len(shp) == 2:
+                used('Generator.normal(size=(a, b)) -> a x b float matrix with arbitrary real entries (requires a, b >= 0); the draw is logged')
+                for s_ in shp:
+                    ex.oblige(st, 'call-pre', 'draw-size-is-a-non-negative-integer', z3.And(z3.BoolVal(is_intsort(s_)), Z(s_) >= 0), node)
+                t = ex.fresh('noise', T.Mat)
+                st.assume(T.rows(t) == Z(shp[0]), T.cols(t) == Z(shp[1]))
+                st.ghost['core_draws'] = st.ghost.get('core_draws', []) + [(r, tuple(shp), t)]
+                return VArr(tuple(shp), t, 'mat')
+    return _orig_method_o(ex, st, recv, name, args, kwargs, node)
+
+
+M.method = method_ops
+_orig_index_o = M.arr_index
+
+
+def arr_index_ops(ex, st, a, sl_, node):
+    if _ops(ex) and isinstance(a, VArr) and a.ndim == 2 and isinstance(sl_, ast.Tuple) and len(sl_.elts) == 2:
+        e0, e1 = sl_.elts
+        for ax, (full_e, idx_e) in enumerate(((e1, e0), (e0, e1))):
+            if _full(full_e) and not isinstance(idx_e, ast.Slice):
+                iv = st.deref(ex.ev(idx_e, st))
+                if _is_ivec(iv):
+                    n = Z(a.shape[ax])
+                    used('A[:, ind] / A[ind, :] with an integer vector -> the selected columns / rows in that order; every index must lie in [-n, n)')
+                    ex.oblige(st, 'safety', 'selection-indices-in-range',
+                              z3.ForAll([_kp], z3.Implies(z3.And(0 <= _kp, _kp < Z(iv.shape[0])), z3.And(-n <= iv.t[_kp], iv.t[_kp] < n)),
+                                        patterns=[iv.t[_kp]]), node)
+                    shp = (iv.shape[0], a.shape[1]) if ax == 0 else (a.shape[0], iv.shape[0])
+                    out = VArr(shp, None, None, a.dtype)
+                    out.src = ('rows' if ax == 0 else 'cols', a, iv)
+                    return out
+                break
+    return _orig_index_o(ex, st, a, sl_, node)
+
+
+M.arr_index = arr_index_ops
+_orig_reshape_o = M.reshape
+
+
+def reshape_ops(ex, st, a, shp, order, node):
+    """A reshape between a matrix and a 3-D array that is none of the unfolding / folding patterns: NumPy requires the sizes to agree
+    (else ValueError).  Sizes that are not provably equal become a failing obligation; provably equal ones stay Unsupported."""
+    if not _ops(ex):
+        return _orig_reshape_o(ex, st, a, shp, order, node)
+    try:
+        return _orig_reshape_o(ex, st, a, shp, order, node)
+    except ContractMismatch:
+        raise
+    except Unsupported:
+        dims = M.shape_arg(ex, st, shp, node)
+        if isinstance(a, VArr) and a.ndim in (2, 3) and len(dims) in (2, 3) and all(is_intsort(x) and not (isinstance(x, int) and x < 0) for x in dims):
+            same = T.mul_canon(*a.shape) == T.mul_canon(*dims)
+            if quick_unsat(list(T.GROUPS['mulI']) + list(st.pc) + [z3.Not(same)]):
+                raise                   # a legitimate reshape that the engine cannot denote: undecided
+            used('reshape(A, shape) outside the unfolding patterns: the size must be preserved (else ValueError)')
+            ex.oblige(st, 'call-pre', 'reshape-preserves-size', same, node)
+            return VArr(tuple(dims), None, None, a.dtype)
+        raise
+
+
+M.reshape = reshape_ops
+
+
+@model('np.random.normal', 'np.random.randn', 'np.random.rand', 'np.random.uniform')
+def m_global_random(ex, st, args, kwargs, node):
+    """Draws from the GLOBAL NumPy generator (C10 forbids them in seeded functions): logged with the generator 'global'."""
+    if _ops(ex) and ast.unparse(node.func) == 'np.random.normal' and not args and set(kwargs) == {'size'}:
+        shp = M.shape_arg(ex, st, kwargs['size'], node)
+        if len(shp) == 2:
+            used('np.random.normal(size=(a, b)) -> a x b float matrix drawn from the process-wide generator (logged as generator "global")')
+            t = ex.fresh('gnoise', T.Mat)
+            st.assume(T.rows(t) == Z(shp[0]), T.cols(t) == Z(shp[1]))
+            st.ghost['core_draws'] = st.ghost.get('core_draws', []) + [('global', tuple(shp), t)]
+            return VArr(tuple(shp), t, 'mat')
+    raise Unsupported(f'call of {ast.unparse(node.func)} at line {node.lineno}: not in the model table')
+
+
+# ----------------------------------------------------------------------------------------------
+# data.cache_to_data   (gate: ex.core_cache)
+#
+# VDict: a dict with n entries in insertion order whose keys are tuples of w integers (key s = the integer sequence keys[s]) and
+# whose values are numbers (vals[s]) - the cache of cross().  `d.keys()` / `d.values()` give the sequences of keys / values in insertion
+# order (tags 'dictkeys' / 'dictvals'); `[x for x in seq]` copies such a sequence into a new list; np.array of the key list is the
+# (n, w) integer matrix of the keys (the 1-D empty array for n = 0), np.array of the value list the float vector of the values.
+# Every mutating access (d[k] = v, clear / pop / popitem / update / setdefault) is counted in `.writes`.
+
+KEYS = z3.ArraySort(I, IA)
+
+
+class VKey:
+    """One key tuple (only passed around)."""
+    def __init__(self, t):
+        self.t = t
+
+
+class VDict:
+    def __init__(self, keys, w, vals, n, writes=0):
+        self.keys, self.w, self.vals, self.n, self.writes = keys, w, vals, n, writes
+
+    def copy(self):
+        return VDict(self.keys, self.w, self.vals, self.n, self.writes)
+
+
+def _cache(ex):
+    return getattr(ex, 'core_cache', False)
+
+
+def _mk_keyseq(d):
+    s = VSeq(d.keys, d.n, lambda t: VKey(t), 'dictkeys')
+    s.w = d.w
+    return s
+
+
+_MUTATORS = ('clear', 'pop', 'popitem', 'update', 'setdefault', '__setitem__', '__delitem__')
+_orig_method_c = M.method
+
+
+def method_cache(ex, st, recv, name, args, kwargs, node):
+    if _cache(ex):
+        r = st.deref(recv)
+        if isinstance(r, VDict):
+            if name == 'keys' and not args and not kwargs:
+                used('dict.keys() -> the keys in insertion order')
+                return st.alloc(_mk_keyseq(r))
+            if name == 'values' and not args and not kwargs:
+                used('dict.values() -> the values in insertion order (same order as keys())')
+                return st.alloc(VSeq(r.vals, r.n, lambda t: t, 'dictvals'))
+            if name in _MUTATORS:
+                used(f'dict.{name}(..) -> the dict is modified (contents not followed)')
+                r.writes += 1
+                r.keys, r.vals, r.n = ex.fresh('keys', KEYS), ex.fresh('vals', RA), ex.fresh_int('nkeys')
+                st.assume(r.n >= 0)
+                return VOpaque('dict-method') if name != 'clear' else NONE
+            raise Unsupported(f'dict method .{name}')
+        if isinstance(r, VRec) and name in ('keys', 'values') and not args and not kwargs and not r.fields:
+            used('{}.keys() / {}.values() of an empty dict -> nothing to iterate over')
+            return st.alloc(VList([]))
+        if isinstance(r, VRec) and name in _MUTATORS:
+            st.ghost['dict_mutations'] = st.ghost.get('dict_mutations', 0) + 1
+            return NONE
+    return _orig_method_c(ex, st, recv, name, args, kwargs, node)
+
+
+M.method = method_cache
+_orig_store_c = M.store
+
+
+def store_cache(ex, st, base, sl_, v, node, base_node):
+    if _cache(ex):
+        b = st.deref(base)
+        if isinstance(b, VDict):
+            used('d[k] = v -> the dict is modified (contents not followed)')
+            b.writes += 1
+            b.keys, b.vals, b.n = ex.fresh('keys', KEYS), ex.fresh('vals', RA), ex.fresh_int('nkeys')
+            st.assume(b.n >= 1)
+            return
+        if isinstance(b, VRec):
+            st.ghost['dict_mutations'] = st.ghost.get('dict_mutations', 0) + 1
+    return _orig_store_c(ex, st, base, sl_, v, node, base_node)
+
+
+M.store = store_cache
+_orig_listcomp_c = M.listcomp
+
+
+def listcomp_cache(ex, st, e):
+    if _cache(ex) and len(e.generators) == 1 and not e.generators[0].ifs and isinstance(e.elt, ast.Name) \
+            and isinstance(e.generators[0].target, ast.Name) and e.elt.id == e.generators[0].target.id:
+        src = st.deref(ex.ev(e.generators[0].iter, st))
+        if isinstance(src, VSeq) and src.tag in ('dictkeys', 'dictvals'):
+            used('[x for x in seq] -> a NEW list with the same elements in the same order')
+            out = src.copy()
+            if hasattr(src, 'w'):
+                out.w = src.w
+            return st.alloc(out)
+        if isinstance(src, VList) and not src.items:
+            return st.alloc(VList([]))
+        raise Unsupported('identity list comprehension over this iterable')
+    return _orig_listcomp_c(ex, st, e)
+
+
+M.listcomp = listcomp_cache
+
+
+def _wrap_array_cache(name):
+    orig = M.FUNCS[name]
+
+    def m_array_cache(ex, st, args, kwargs, node):
+        if _cache(ex) and len(args) == 1 and set(kwargs) <= {'dtype'}:
+            v = st.deref(args[0])
+            dt = kwargs.get('dtype')
+            if isinstance(v, VSeq) and v.tag == 'dictkeys' and (dt is None or (isinstance(dt, M.TypeVal) and dt.name == 'int')):
+                from ttvc import mx_act as XA
+                if ex.decide(st, v.n == 0, node):
+                    used('np.array([], dtype=int) -> the empty 1-D integer array')
+                    return VArr((0,), None, None, 'i')
+                used('np.array(list of n >= 1 tuples of w integers, dtype=int) -> the (n, w) integer matrix whose rows are the tuples, in list order')
+                return XA.idx_batch(v.arr, v.n, v.w)
+            if isinstance(v, VSeq) and v.tag == 'dictvals' and dt is None:
+                from ttvc import mx_act as XA
+                used('np.array(list of n numbers) -> the float vector of these numbers, in list order')
+                return XA.mk_wvec(v.n, v.arr)
+        return orig(ex, st, args, kwargs, node)
+    M.FUNCS[name] = m_array_cache
+
+
+for _nm in ('np.array', 'np.asanyarray', 'np.asarray'):
+    _wrap_array_cache(_nm)
